@@ -320,9 +320,32 @@ func joTree(r *rand.Rand, depth int, calls *[]joCall) {
 	}
 }
 
+// joDeep nests d containers (objects and arrays alternating at random) around one scalar.
+func joDeep(r *rand.Rand, d int, calls *[]joCall) {
+	if d == 0 {
+		*calls = append(*calls, joScalar(r))
+		return
+	}
+	if r.Intn(2) == 0 {
+		s := joStrings[r.Intn(len(joStrings))]
+		*calls = append(*calls, joCall{Op: "so"}, joCall{Op: "nf", B: bytes2ints(s), U8: utf8.Valid(s)})
+		joDeep(r, d-1, calls)
+		*calls = append(*calls, joCall{Op: "eo"})
+	} else {
+		*calls = append(*calls, joCall{Op: "sa"})
+		joDeep(r, d-1, calls)
+		*calls = append(*calls, joCall{Op: "ea"})
+	}
+}
+
 func genJSONOut(r *rand.Rand, enc *json.Encoder, cfg Cfg, id int, depth int) {
 	calls := []joCall{}
-	joTree(r, 1+r.Intn(5), &calls)
+	if r.Intn(25) == 0 {
+		// deep nesting: indentation and the container stack grow with the depth
+		joDeep(r, []int{15, 16, 17, 18, 31, 32, 33, 40, 70}[r.Intn(9)], &calls)
+	} else {
+		joTree(r, 1+r.Intn(5), &calls)
+	}
 	pre := [][]joCall{}
 	for i := r.Intn(3); i > 0; i-- {
 		p := []joCall{}
